@@ -13,9 +13,11 @@ import (
 	"encoding/json"
 	"fmt"
 	"io"
+	"io/ioutil"
 	"math/big"
 	"math/rand"
 	"os"
+	"reflect"
 	"runtime"
 	"strconv"
 	"testing"
@@ -96,6 +98,7 @@ type rec3 struct {
 	C *big.Int
 	T []uint16 `rlp:"tail"`
 }
+
 // a record as fat as a block header (several fixed-size hashes)
 type fat struct {
 	A, B, C, D, E, F, G, H [32]byte
@@ -310,6 +313,55 @@ func TestVerifRLP(t *testing.T) {
 			enc2 = append([]byte{0xfa, byte(n >> 16), byte(n >> 8), byte(n)}, good...)
 		}
 		probe(w, enc2, "biglist")
+	}
+	// encode side: values whose list / string payloads sit on the header-size boundaries (55/56, 255/256, 65535/65536), alone,
+	// nested, and followed by another list; through EncodeToBytes, Encode(io.Writer) and EncodeToReader
+	{
+		str := func(n int) []byte {
+			b := make([]byte, n)
+			for i := range b {
+				b[i] = byte(0x80 + i%100)
+			}
+			return b
+		}
+		var vals []interface{}
+		for _, n := range []int{0, 1, 2, 50, 51, 52, 53, 54, 55, 56, 57, 58, 60, 250, 252, 253, 254, 255, 256, 257, 258, 65530, 65532, 65533, 65534, 65535, 65536, 65540} {
+			vals = append(vals, str(n), []interface{}{str(n)})
+			if n < 300 {
+				items := []interface{}{}
+				for i := 0; i < n; i++ {
+					items = append(items, []byte{byte(i % 128)}) // n one-byte items: payload exactly n
+				}
+				vals = append(vals, items, []interface{}{items}, []interface{}{items, []interface{}{}}, []interface{}{[]byte{1}, items, []interface{}{[]byte{2}}})
+			}
+		}
+		for _, v := range vals {
+			ev := map[string]interface{}{"e": "enc", "term": termOf(v), "bytes": []int{}, "writer": []int{}, "reader": []int{}, "err": false, "roundtrip": false}
+			pn := ""
+			func() {
+				defer func() {
+					if r := recover(); r != nil {
+						pn = fmt.Sprint(r)
+					}
+				}()
+				b, err := EncodeToBytes(v)
+				ev["bytes"], ev["err"] = ints(b), err != nil
+				var buf bytes.Buffer
+				err2 := Encode(&buf, v)
+				ev["writer"] = ints(buf.Bytes())
+				_, r, err3 := EncodeToReader(v)
+				var rb []byte
+				if err3 == nil {
+					rb, _ = ioutil.ReadAll(r)
+				}
+				ev["reader"] = ints(rb)
+				ev["err"] = err != nil || err2 != nil || err3 != nil
+				var back interface{}
+				ev["roundtrip"] = DecodeBytes(b, &back) == nil && reflect.DeepEqual(termOf(back), termOf(v))
+			}()
+			ev["panic"] = pn
+			w.emit(ev)
+		}
 	}
 	fmt.Printf("VERIF-STAT events=%d\n", w.n)
 }
